@@ -86,7 +86,12 @@ pub fn parse_reported(inv: &Invocation, world: &World, stdout: &[u8]) -> Reporte
                 .map(norm)
                 .collect(),
         ),
-        "unified" => Reported::Count(text.lines().filter(|l| l.starts_with("--- ")).count()),
+        "unified" => {
+            // a file header is `--- x` directly followed by `+++ y` (a removed Lua comment line
+            // also starts with `--- `)
+            let ls: Vec<&str> = text.lines().collect();
+            Reported::Count((0..ls.len()).filter(|&i| ls[i].starts_with("--- ") && ls.get(i + 1).map(|n| n.starts_with("+++ ")).unwrap_or(false)).count())
+        }
         "json" => {
             let mut out = Vec::new();
             for l in text.lines() {
@@ -361,16 +366,18 @@ pub fn tree_oracle(property: &str, prefix: &str, inv: &Invocation, ex: &Expected
         match fe {
             None => {
                 if !unchanged {
-                    let sel = if ex.selection.kf7_candidates.contains(p) {
-                        "kf7-candidate"
+                    let sel = if ex.selection.kf9_candidates.contains(p) {
+                        "unselected-file-modified/slash-pattern-in-ignore-file-above-directory-argument"
+                    } else if ex.selection.kf7_candidates.contains(p) {
+                        "unselected-file-modified/user-glob-whitelist-overrides-ignore-or-hidden"
                     } else if ex.selection.kf8_candidates.contains(p) {
-                        "kf8-candidate"
+                        "unselected-file-modified/respect-ignores-explicit-path-non-nearest-ignore-file"
                     } else {
-                        "unselected"
+                        "unselected-file-modified"
                     };
                     out.push(v(
                         property,
-                        format!("{prefix}/{sel}-file-modified/{}", describe_content(&before.bytes, None, &after.bytes)),
+                        format!("{prefix}/{sel}/{}", describe_content(&before.bytes, None, &after.bytes)),
                         p.clone(),
                         idx,
                     ));
@@ -465,10 +472,13 @@ pub fn selection_oracle(property: &str, inv: &Invocation, world: &World, ex: &Ex
     let sel = &ex.selection.selected;
     let mut extra_kf7 = Vec::new();
     let mut extra_kf8 = Vec::new();
+    let mut extra_kf9 = Vec::new();
     let mut extra = Vec::new();
     for p in reads.keys() {
         if !sel.contains(p) {
-            if ex.selection.kf7_candidates.contains(p) {
+            if ex.selection.kf9_candidates.contains(p) {
+                extra_kf9.push(p.clone());
+            } else if ex.selection.kf7_candidates.contains(p) {
                 extra_kf7.push(p.clone());
             } else if ex.selection.kf8_candidates.contains(p) {
                 extra_kf8.push(p.clone());
@@ -482,8 +492,10 @@ pub fn selection_oracle(property: &str, inv: &Invocation, world: &World, ex: &Ex
     if inv.opts.check {
         if let Reported::Files(got) = parse_reported(inv, world, &run.stdout) {
             for g in got {
-                if g != "stdin" && !sel.contains(&g) && !extra.contains(&g) && !extra_kf7.contains(&g) && !extra_kf8.contains(&g) {
-                    if ex.selection.kf7_candidates.contains(&g) {
+                if g != "stdin" && !sel.contains(&g) && !extra.contains(&g) && !extra_kf7.contains(&g) && !extra_kf8.contains(&g) && !extra_kf9.contains(&g) {
+                    if ex.selection.kf9_candidates.contains(&g) {
+                        extra_kf9.push(g);
+                    } else if ex.selection.kf7_candidates.contains(&g) {
                         extra_kf7.push(g);
                     } else if ex.selection.kf8_candidates.contains(&g) {
                         extra_kf8.push(g);
@@ -513,6 +525,14 @@ pub fn selection_oracle(property: &str, inv: &Invocation, world: &World, ex: &Ex
             idx,
         ));
     }
+    if !extra_kf9.is_empty() {
+        out.push(v(
+            property,
+            "select/extra-file-processed/slash-pattern-in-ignore-file-above-directory-argument".into(),
+            format!("{:?}", extra_kf9),
+            idx,
+        ));
+    }
     // missing: selected but never read — only when the seam saw reads at all, or the
     // observable outcome confirms it
     let mut missing = Vec::new();
@@ -536,8 +556,17 @@ pub fn selection_oracle(property: &str, inv: &Invocation, world: &World, ex: &Ex
             }
         }
     }
+    let (missing_kf9, missing): (Vec<String>, Vec<String>) = missing.into_iter().partition(|p| ex.selection.kf9_candidates.contains(p));
     if !missing.is_empty() {
         out.push(v(property, "select/selected-file-not-processed".into(), format!("{:?}", missing), idx));
+    }
+    if !missing_kf9.is_empty() {
+        out.push(v(
+            property,
+            "select/selected-file-not-processed/slash-pattern-in-ignore-file-above-directory-argument".into(),
+            format!("{:?}", missing_kf9),
+            idx,
+        ));
     }
     out
 }
@@ -564,7 +593,7 @@ pub fn stdin_oracle(property: &str, inv: &Invocation, ex: &Expected, run: &RunRe
     let suffix = if kf8 { "/respect-ignores-stdin-filepath-non-nearest-ignore-file" } else { "" };
     if stdin_eio {
         // may fail, never wrong data
-        let ok_fail = run.status == 2 && run.stdout.is_empty();
+        let ok_fail = run.status == 2 && (inv.opts.check || run.stdout.is_empty());
         let ok_full = run.status == ex.status && ex.stdin_stdout.as_deref().map(|e| e == &run.stdout[..]).unwrap_or(run.stdout.is_empty());
         if !(ok_fail || ok_full) {
             out.push(v(
